@@ -169,6 +169,53 @@ def job_units():
     return recs
 
 
+def job_units_sym(asc):
+    """unit-carrying arguments as symbolic quantities (kHz / ms / MHz / GHz): the frame and its conversions are those
+    of the same values given as plain SI numbers"""
+    from props.frame_common import SQ
+    recs = []
+    tag = f"C05:units-sym:{asc}"
+    dk, tms, fM, xG, xk = (Sym(z3.Real(n)) for n in ('df_kHz', 'dt_ms', 'fch1_MHz', 'x_GHz', 'x_kHz'))
+    pre = [dk.t > 0, tms.t > 0]
+    T, Fc = 2, 3
+
+    def run():
+        fr = F.Frame(fchans=Fc, tchans=T, df=SQ(dk, 'kHz'), dt=SQ(tms, 'ms'), fch1=SQ(fM, 'MHz'), ascending=asc)
+        return fr, fr.get_index(SQ(xG, 'GHz')), fr.get_index(SQ(xk, 'kHz')), fr.get_index(xG * 1e9)
+    with frame_patches(units=True):
+        leaves = core.explore(run, pre, cap=60)
+    conds = []
+    for li, leaf in enumerate(leaves):
+        conds.append(leaf.cond())
+        base = pre + leaf.pc + leaf.side
+        name = f"{tag}:leaf{li}"
+        if leaf.kind == 'exc':
+            r, m = core.check(base, timeout_ms=30000)
+            recs.append(q(name + ':noexc', r, detail=repr(leaf.value)))
+            if r == 'sat':
+                recs.append(cex('C05:units', f'unit-carrying arguments raise {leaf.value!r}', dict(fn='units'), name=name + ':noexc'))
+            continue
+        fr, iG, ik, iref = leaf.value
+        dfv, dtv, f1 = dk.t * 1000, tms.t / 1000, fM.t * 1000000
+        ob = [(n_, c) for n_, c in axis_obligations(fr, T, Fc, asc, Sym(dfv), Sym(dtv), Sym(f1))]
+        fmin = f1 if asc else f1 - (Fc - 1) * dfv
+        # nearest-channel index of a frequency given in GHz / kHz: |(x - fmin)/df - index| <= 1/2
+        for nm, idx, hz in (('get_index(GHz)', iG, xG.t * 1000000000), ('get_index(kHz)', ik, xk.t * 1000)):
+            qv = (hz - fmin) / dfv
+            ob.append((nm, z3.Or(lift(idx) - qv > RV(0.5), qv - lift(idx) > RV(0.5))))
+        ob.append(('get_index(GHz) = get_index(Hz)', lift(iG) != lift(iref)))
+        with frame_patches(units=True):
+            pass
+        r, m = core.check(base + [z3.Or(*[c for _, c in ob])], timeout_ms=60000)
+        recs.append(q(name, r, obligations=len(ob)))
+        if r == 'sat':
+            failing = [l for l, c in ob if z3.is_true(m.eval(c, model_completion=True))]
+            recs.append(cex('C05:units', f"with unit-carrying arguments: {failing[:3]}", dict(fn='units'), name=name))
+    r, _ = core.check(pre + [z3.Not(z3.Or(*conds))], timeout_ms=30000)
+    recs.append(q(f"{tag}:split-complete", r))
+    return recs
+
+
 def job_index(geom, T, Fc, asc):
     """index <-> frequency with an arbitrary *integer* j and an arbitrary real f (exact reals)"""
     recs = []
@@ -494,6 +541,10 @@ def replay_units(p):
             ref = stg.Frame(fchans=5, tchans=3, ascending=asc, df=2.0, dt=4.0, fch1=4096.0)
             if not (np.allclose(fr.fs, ref.fs, rtol=1e-12, atol=0) and np.allclose(fr.ts, ref.ts, rtol=1e-12) and abs(fr.df - 2.0) < 1e-12 and abs(fr.dt - 4.0) < 1e-12):
                 msgs.append(f"unit case {k} asc={asc}: fs={fr.fs} df={fr.df} dt={fr.dt}")
+    fr = stg.Frame(fchans=16, tchans=3, df=2.0 * u.Hz, dt=4.0 * u.s, fch1=4096.0 * u.Hz, ascending=True)
+    for qv in (4106.0 * u.Hz, 0.004106 * u.MHz, 4.106e-6 * u.GHz, 4.106 * u.kHz):
+        if fr.get_index(qv) != 5:
+            msgs.append(f"get_index({qv!r}) = {fr.get_index(qv)}, channel 5 is at 4106 Hz")
     return bool(msgs), '; '.join(msgs) or 'unit-carrying arguments agree with plain numbers'
 
 
@@ -526,6 +577,8 @@ def main():
         jobs.append(('job_backend', (asc,)))
         jobs.append(('job_fp_roundtrip', (asc,)))
     jobs.append(('job_units', ()))
+    for asc in (False, True):
+        jobs.append(('job_units_sym', (asc,)))
     for smear in (False, True):
         jobs.append(('job_orient', (2, 3, smear)))
         if ck.thorough:
